@@ -78,6 +78,43 @@ theorem exportOv_same_length (c : CryptoOps) (s : ObjState) (ov : Bytes) (r : Ra
   simp only [withCert, hlen]
   rfl
 
+/-- the bytes of `export(cert_block=ov)` for a non-empty override: the header is the one of the OBJECT (`hdrSpec s`: total length from
+    the object's own certificate block), the certificate block bytes are the override -/
+theorem exportOv_bytes (c : CryptoOps) (s : ObjState) (ov : Bytes) (r : Rand) (hne : ov ≠ [])
+    (hh : s.cfg.hashLen = 32 ∨ s.cfg.hashLen = 48) :
+    ∃ sig, sig = c.sign (sigAlgOf s.cfg.hashLen) s.cfg.sk (encHeader (hdrSpec s) ++ ((chainOf c s).1 ++ ov)) r ∧
+      (exportOv c s (some ov) r).2 =
+        encHeader (hdrSpec s) ++ ((chainOf c s).1 ++ (ov ++ (sig ++ (chainOf c s).2.flatten))) := by
+  have he : ov.isEmpty = false := by cases ov <;> simp_all
+  refine ⟨_, rfl, ?_⟩
+  simp only [exportOv, certData, he, headerOf_eq s hh, chainStartHash_eq, chainOf, List.append_assoc]
+  rfl
+
+/-- CURRENT BEHAVIOUR (finding C05-override-length): an override whose length differs from the object's own certificate block is
+    written behind a header whose `image_total_length` still counts the object's own block, so no loader accepts the file -/
+theorem exportOv_other_length_refused {c : CryptoOps} (hc : CryptoLaws c) (s : ObjState) (hg : Good c s) (wf : StateWF c s)
+    (ov : Bytes) (r : Rand) (hne : ov ≠ []) (hlen : ov.length ≠ s.cfg.cert.length) (dev : Dev) (res : RomOk) :
+    romLoad c dev (exportOv c s (some ov) r).2 ≠ .ok res := by
+  intro h
+  obtain ⟨b0, hb0, _, _⟩ := romLoad_inv c dev _ res h
+  obtain ⟨p, h1, cert, sig, ci, obs', e, lp, lh1, lsig, htot, _, _, _, _, hrest, ⟨b, hph⟩⟩ := parseBlock0_inv_cert c dev.rotkh _ b0 hb0
+  obtain ⟨sg, hsg, hbytes⟩ := exportOv_bytes c s ov r hne hg.hl
+  have hhdr : b0.hdr = hdrSpec s := by
+    rw [hbytes, parseHeader_enc _ (hdrSpec_wf s hg wf)] at hph
+    exact (congrArg Prod.fst (Except.ok.inj hph)).symm
+  have hH : (encHeader (hdrSpec s)).length = 60 := encHeader_length _ (adjustDesc_length _)
+  have hs1 : sg.length = 2 * s.cfg.hashLen := by rw [hsg]; exact wf.sigLen _ r
+  have hs2 : (sigOf c s r).length = 2 * s.cfg.hashLen := wf.sigLen _ r
+  have hlen1 := congrArg List.length e
+  simp only [List.length_append, lp, lh1, lsig, hrest] at hlen1
+  have hlen3 := congrArg List.length hbytes
+  simp only [List.length_append, hH, hs1] at hlen3
+  have hlen2 := export_length hc s hg wf r
+  have hlen4 := congrArg List.length (exportSb_bytes c s r hg.hl)
+  simp only [List.length_append, hH, hs2] at hlen4
+  rw [hhdr] at hlen1 htot
+  omega
+
 theorem good_withCert {c : CryptoOps} {s : ObjState} (hg : Good c s) (cert : Bytes) : Good c (withCert s cert) :=
   ⟨hg.hl, hg.keyLen, hg.rights, hg.kdk⟩
 
